@@ -370,7 +370,8 @@ Step(s, e) ==
         \* C14: the image a power cut leaves after the first e.p entries of the device write log
         LET rvc == IF Has(e, "rv") THEN e.rv ELSE s.crv
             need == {r \in s.dur : r.lo <= e.p /\ e.p <= r.hi}
-            found(r) == rvc.ok /\ \E i \in 1..Len(rvc.tree) : rvc.tree[i].p = r.p /\ rvc.tree[i].k = "f" /\ rvc.tree[i].c = r.d
+            \* (r.q # r.p only while a rename of the file or of a directory above it is under way: old or new path)
+            found(r) == rvc.ok /\ \E i \in 1..Len(rvc.tree) : rvc.tree[i].p \in {r.p, r.q} /\ rvc.tree[i].k = "f" /\ rvc.tree[i].c = r.d
         IN [s |-> [s EXCEPT !.crv = rvc], v |-> Tag("C14.durable", \A r \in need : found(r)), dev |-> {},
             note |-> IF need = {} THEN {} ELSE {"C14n"}]
    ELSE IF e.op = "poke" THEN
@@ -417,7 +418,8 @@ Step(s, e) ==
                         labs == SelectSeq(root, LAMBDA x : x.t = "S" /\ (x.at \div 8) % 2 = 1 /\ (x.at \div 16) % 2 = 0)
                     IN [m |-> s.m, ooc |-> FALSE,
                         v |-> IF e.r.k # "ok" THEN {"C08.info"}
-                              ELSE Tag("C08.info", e.r.ft = post.g.ft /\ e.r.cs = post.g.cs /\ e.r.label = RTrimSp(post.g.lab) /\ e.r.vid = post.g.vid
+                              ELSE Tag("C08.info", e.r.ft = post.g.ft /\ e.r.cs = post.g.cs
+                                                   /\ (post.g.xs = 41 => e.r.label = RTrimSp(post.g.lab) /\ e.r.vid = post.g.vid)
                                                    /\ (Len(labs) = 0 => e.r.rlabel = <<>>)
                                                    /\ (Len(labs) = 1 => e.r.rlabel = labs[1].n))]
                [] OTHER -> [m |-> s.m, v |-> {}, ooc |-> FALSE]
@@ -478,14 +480,21 @@ Step(s, e) ==
        hnode == IF Has(e, "a") /\ Has(e.a, "h") /\ e.a.h \in DOMAIN s.m.fh THEN {s.m.fh[e.a.h].node} ELSE {}
        touched == IF ~Has(e, "wl") THEN {}
                   ELSE (IF e.op \in {"write", "write_all", "truncate", "set_created", "set_modified", "set_accessed"} THEN hnode ELSE {})
-                       \cup (IF e.op \in {"remove", "rename"} /\ e.r.k = "ok"
-                             THEN {i \in Ids(s.m) : i \notin Ids(m) \/ PathOf(m, i, 64) # PathOf(s.m, i, 64)} ELSE {})
+                       \cup (IF e.op \in {"remove", "rename"} /\ e.r.k = "ok" THEN {i \in Ids(s.m) : i \notin Ids(m)} ELSE {})
+       \* a rename does not modify the file: the promise moves with it.  While the device writes of the rename are under way the file is
+       \* found under its old or its new path (with the flushed content), afterwards under the new one
+       moved == IF Has(e, "wl") /\ e.op = "rename" /\ e.r.k = "ok"
+                THEN {i \in Ids(s.m) \cap Ids(m) : PathOf(m, i, 64) # PathOf(s.m, i, 64)} ELSE {}
        flushed == IF ~Has(e, "wl") \/ e.r.k # "ok" THEN {}
                   ELSE IF e.op \in {"flush", "close"} THEN hnode
                   ELSE IF e.op = "close_all" THEN {s.m.fh[h].node : h \in DOMAIN s.m.fh} ELSE {}
-       dur == {IF r.n \in touched /\ r.hi = 1073741824 THEN [r EXCEPT !.hi = s.wl] ELSE r : r \in s.dur}
+       openMoved == {r \in s.dur : r.n \in moved /\ r.hi = 1073741824}
+       dur == {IF (r.n \in touched \/ r.n \in moved) /\ r.hi = 1073741824 THEN [r EXCEPT !.hi = s.wl] ELSE r : r \in s.dur}
+              \cup {[r EXCEPT !.q = PathOf(m, r.n, 64), !.lo = s.wl + 1, !.hi = wlNow] : r \in openMoved}
+              \cup {[r EXCEPT !.p = PathOf(m, r.n, 64), !.q = PathOf(m, r.n, 64), !.lo = wlNow + 1] : r \in openMoved}
               \* durable from the last flush the storage has seen (e.fm), not merely from the return of the call
-              \cup {[n |-> n, p |-> PathOf(m, n, 64), d |-> m.nodes[n].data, lo |-> Get(e, "fm", wlNow), hi |-> 1073741824] : n \in flushed \cap Ids(m)}
+              \cup {[n |-> n, p |-> PathOf(m, n, 64), q |-> PathOf(m, n, 64), d |-> m.nodes[n].data, lo |-> Get(e, "fm", wlNow), hi |-> 1073741824]
+                     : n \in flushed \cap Ids(m)}
        \* ---- C08 frames / C11 ownership: what this call may change
        \* objects whose path appears, disappears or is the target of a file operation, and all their ancestors
        opNodes == hnode \cup (IF e.op = "close_all" THEN {s.m.fh[h].node : h \in DOMAIN s.m.fh} ELSE {})
